@@ -2353,7 +2353,14 @@ def inline_new_helpers(repo, full_ref):
         return done
     for hq, h in list(new_funcs.items()):
         a = h.node.args
-        if a.vararg or a.kwarg or a.kwonlyargs or a.posonlyargs:
+        if a.vararg or a.kwonlyargs:
+            continue
+        # **kwargs that the helper only hands on (`g(x, **kwargs)`) is the caller's own `**kwargs` at the inlined call
+        kwname = a.kwarg.arg if a.kwarg else None
+        if kwname is not None and a.args:
+            continue    # (a caller's keyword could collide with a parameter name: only exact for positional-only parameters)
+        if kwname is not None and not all(isinstance(getattr(x, "_parent", None), ast.keyword) and x._parent.arg is None and isinstance(x.ctx, ast.Load)
+                                          for x in ast.walk(h.node) if isinstance(x, ast.Name) and x.id == kwname):
             continue
         decos = set(h.decorators)
         if decos - {"staticmethod", "classmethod"}:
@@ -2365,7 +2372,9 @@ def inline_new_helpers(repo, full_ref):
         # not recursive
         if any(isinstance(c, ast.Call) and (norm_name(c.func) == h.name) for c in ast.walk(h.node)):
             continue
-        params = [x.arg for x in a.args]
+        params = [x.arg for x in a.posonlyargs + a.args]
+        if (kwname is not None or a.posonlyargs) and any(isinstance(x, ast.Yield) for x in ast.walk(h.node)):
+            continue
         if any(isinstance(x, ast.Yield) for x in ast.walk(h.node)):
             try:
                 if _inline_generator(repo, hq, h, params, decos, done):
@@ -2463,7 +2472,7 @@ def inline_new_helpers(repo, full_ref):
             ok_all = True
             plans = []
             for (fi, c, st, form, _, recv) in sites:
-                if any(isinstance(x, ast.Starred) for x in c.args) or any(k.arg is None for k in c.keywords):
+                if any(isinstance(x, ast.Starred) for x in c.args) or any(k.arg is None for k in c.keywords) or kwname is not None:
                     ok_all = False
                     break
                 argmap = dict(zip(call_params, c.args))
@@ -2516,17 +2525,24 @@ def inline_new_helpers(repo, full_ref):
             continue
         try:
             for (fi, c, st, form, _, recv) in sites:
-                if any(isinstance(x, ast.Starred) for x in c.args) or any(k.arg is None for k in c.keywords):
+                stars = [k for k in c.keywords if k.arg is None]
+                if any(isinstance(x, ast.Starred) for x in c.args) or (stars and kwname is None):
                     raise _Refuse("star arguments")
+                if kwname is not None and not (len(stars) == 1 and isinstance(stars[0].value, ast.Name) and len(c.keywords) == 1 and len(c.args) == len(call_params)):
+                    raise _Refuse("keyword pass-through")
                 argmap = {}
                 for p_, a_ in zip(call_params, c.args):
                     argmap[p_] = a_
                 for k in c.keywords:
+                    if k.arg is None:
+                        continue
                     if k.arg not in call_params or k.arg in argmap:
                         raise _Refuse("keyword")
                     argmap[k.arg] = k.value
                 prelude = []
                 mapping = {}
+                if kwname is not None:
+                    mapping[kwname] = stars[0].value.id
                 for p_ in call_params:
                     if p_ in argmap:
                         e = argmap[p_]
